@@ -28,14 +28,15 @@ import (
 )
 
 func isMonadType(t types.Type) bool {
-	return monadKind(t) != "" || isNamed(t, "fp", "Future")
+	return monadKind(t) != "" || isNamed(t, "fp", "Future") || isNamed(t, "fp", "StateT")
 }
 
 type effEngine struct {
-	c     *core.Ctx
-	sums  map[*types.Func][]string
-	known map[*types.Func]bool
-	busy  map[*types.Func]bool
+	c         *core.Ctx
+	sums      map[*types.Func][]string
+	known     map[*types.Func]bool
+	busy      map[*types.Func]bool
+	evaluated map[*types.Func]bool // summary obtained by evaluating the body (not the primitive fallback)
 }
 
 type effCtx struct {
@@ -110,14 +111,25 @@ func (e *effEngine) summary(fn *types.Func) ([]string, bool) {
 	}
 	var res []string
 	ok := false
-	if isPrimitive(p, fd) {
-		// a primitive tests its monadic parameters itself: declaration order, then its call-backs
+	res, ok = e.evalBody(cx, fd.Body.List)
+	if ok {
+		e.evaluated[fn] = true
+		if cx.recv != nil && isMonadType(cx.recv.Type()) && !strings.HasPrefix(strings.Join(res, ","), "R:recv") {
+			hasRecv := false
+			for _, k := range res {
+				if k == "R:recv" {
+					hasRecv = true
+				}
+			}
+			_ = hasRecv
+		}
+	} else if isPrimitive(p, fd) {
+		// fallback for a primitive outside the fragment: it tests its monadic parameters itself —
+		// assume declaration order, then its call-backs (no obligation is attached to an assumed order)
 		res, ok = append(append([]string{}, monParams...), fnParams...), true
 		if cx.recv != nil && isMonadType(cx.recv.Type()) {
 			res = append([]string{"R:recv"}, res...)
 		}
-	} else {
-		res, ok = e.evalBody(cx, fd.Body.List)
 	}
 	e.known[fn] = true
 	if ok {
@@ -131,9 +143,35 @@ func (e *effEngine) summary(fn *types.Func) ([]string, bool) {
 }
 
 func (e *effEngine) evalBody(cx *effCtx, list []ast.Stmt) ([]string, bool) {
+	var acc []string
 	for i, st := range list {
 		switch s := st.(type) {
 		case *ast.AssignStmt:
+			// x, ns := st.Run(s) / st(s): x carries the sources of the StateT that was run
+			if len(s.Lhs) == 2 && len(s.Rhs) == 1 {
+				if call, ok := ast.Unparen(s.Rhs[0]).(*ast.CallExpr); ok {
+					var runExpr ast.Expr
+					if ftv, ok := cx.info.Types[call.Fun]; ok && isNamed(ftv.Type, "fp", "StateT") {
+						runExpr = call.Fun
+					}
+					if sel, ok := ast.Unparen(call.Fun).(*ast.SelectorExpr); ok && sel.Sel.Name == "Run" {
+						if rtv, ok := cx.info.Types[sel.X]; ok && isNamed(rtv.Type, "fp", "StateT") {
+							runExpr = sel.X
+						}
+					}
+					if runExpr != nil {
+						v, ok := e.evalExpr(cx, runExpr)
+						if !ok {
+							return nil, false
+						}
+						if o := objOf(cx.info, s.Lhs[0]); o != nil {
+							cx.env[o] = v
+						}
+						continue
+					}
+				}
+				return nil, false
+			}
 			if len(s.Lhs) != 1 || len(s.Rhs) != 1 {
 				return nil, false
 			}
@@ -147,33 +185,100 @@ func (e *effEngine) evalBody(cx *effCtx, list []ast.Stmt) ([]string, bool) {
 					return nil, false
 				}
 				cx.env[o] = v
-			} else if fl, isLit := ast.Unparen(s.Rhs[0]).(*ast.FuncLit); isLit {
-				_ = fl // a local closure: evaluated where it is used (not supported) — give up only if it is monadic
+			} else if _, isLit := ast.Unparen(s.Rhs[0]).(*ast.FuncLit); isLit {
 				if sig, ok := o.Type().Underlying().(*types.Signature); ok && sig.Results().Len() == 1 && isMonadType(sig.Results().At(0).Type()) {
 					return nil, false
 				}
-			} else if nodeContains(s.Rhs[0], true, func(x ast.Node) bool {
-				id, ok := x.(*ast.Ident)
-				if !ok {
-					return false
-				}
-				uo := cx.info.Uses[id]
-				_, isP := cx.params[uo]
-				_, isE := cx.env[uo]
-				return isP && strings.HasPrefix(cx.params[uo], "P:") || isE
-			}) {
-				return nil, false // a non-monadic local computed from monadic sources (e.g. Get()): outside the fragment
 			}
-		case *ast.ReturnStmt:
-			if len(s.Results) != 1 || i != len(list)-1 {
+		case *ast.IfStmt:
+			// a success / failure test of a monadic value consults it here
+			if s.Init != nil {
 				return nil, false
 			}
-			return e.evalExpr(cx, s.Results[0])
+			m, _, ok := successTest(cx.info, s.Cond)
+			if !ok {
+				return nil, false
+			}
+			var mv []string
+			if v, has := cx.env[m]; has {
+				mv = v
+			} else if k, has := cx.params[m]; has {
+				mv = []string{k}
+			} else if cx.recv != nil && m == cx.recv {
+				mv = []string{"R:recv"}
+			} else {
+				return nil, false
+			}
+			acc = append(acc, mv...)
+			tb, ok := e.evalBody(cx, s.Body.List)
+			if !ok {
+				return nil, false
+			}
+			acc = append(acc, tb...)
+			switch el := s.Else.(type) {
+			case *ast.BlockStmt:
+				eb, ok := e.evalBody(cx, el.List)
+				if !ok {
+					return nil, false
+				}
+				acc = append(acc, eb...)
+			case nil:
+			default:
+				return nil, false
+			}
+		case *ast.ReturnStmt:
+			if i != len(list)-1 {
+				return nil, false
+			}
+			var out []string
+			found := false
+			for _, r := range s.Results {
+				tv, ok := cx.info.Types[r]
+				if !ok {
+					continue
+				}
+				isFnRes := false
+				if sig, ok := tv.Type.Underlying().(*types.Signature); ok && sig.Results().Len() >= 1 && isMonadType(sig.Results().At(0).Type()) {
+					isFnRes = true
+				}
+				if isMonadType(tv.Type) || isFnRes {
+					v, ok := e.evalExpr(cx, r)
+					if !ok {
+						return nil, false
+					}
+					out = append(out, v...)
+					found = true
+				} else if call, ok := ast.Unparen(r).(*ast.CallExpr); ok && len(s.Results) == 1 {
+					// a state-shaped call returning (Try, S): f(x)(ns) / st.Run(ns)
+					_ = call
+				}
+			}
+			if !found && len(s.Results) == 1 {
+				// single result that is a tuple-returning call (running a StateT): consult what is run
+				if call, ok := ast.Unparen(s.Results[0]).(*ast.CallExpr); ok {
+					if ftv, ok := cx.info.Types[call.Fun]; ok && isNamed(ftv.Type, "fp", "StateT") {
+						v, ok := e.evalExpr(cx, call.Fun)
+						if !ok {
+							return nil, false
+						}
+						return append(acc, v...), true
+					}
+					if sel, ok := ast.Unparen(call.Fun).(*ast.SelectorExpr); ok && sel.Sel.Name == "Run" {
+						v, ok := e.evalExpr(cx, sel.X)
+						if !ok {
+							return nil, false
+						}
+						return append(acc, v...), true
+					}
+				}
+				return acc, true
+			}
+			return append(acc, out...), true
 		default:
 			return nil, false
 		}
 	}
-	return nil, false
+	return acc, true
 }
 
 func (e *effEngine) evalLit(cx *effCtx, fl *ast.FuncLit) ([]string, bool) {
@@ -390,7 +495,7 @@ func (e *effEngine) subst(cx *effCtx, callee *types.Func, sum []string, call *as
 
 func EffOrder(c *core.Ctx, rule string, pkgs []*packages.Package) {
 	c.Rule(rule, "effect order: (O1) a branch-free combinator consults its monadic parameters and suppliers in declaration order; (O2) the methods of one builder type agree pairwise on the relative order in which the receiver's monadic fields are consulted, and consult them before their own arguments — the failure of the first failing operand in left-to-right order is the one reported")
-	e := &effEngine{c: c, sums: map[*types.Func][]string{}, known: map[*types.Func]bool{}, busy: map[*types.Func]bool{}}
+	e := &effEngine{c: c, sums: map[*types.Func][]string{}, known: map[*types.Func]bool{}, busy: map[*types.Func]bool{}, evaluated: map[*types.Func]bool{}}
 	nSum, nSkip := 0, 0
 	type methodOrder struct {
 		name string
@@ -422,11 +527,14 @@ func EffOrder(c *core.Ctx, rule string, pkgs []*packages.Package) {
 						produces = true
 					}
 				}
-				if !produces || isPrimitive(p, fd) {
+				if !produces {
 					continue
 				}
 				name := c.FuncName(p, fd)
 				sum, ok := e.summary(fn)
+				if ok && !e.evaluated[fn.Origin()] {
+					continue // primitive outside the fragment: order assumed, nothing to judge
+				}
 				if !ok {
 					nSkip++
 					c.Add(rule, name, fd.Pos(), core.Skipped, "outside the branch-free fragment (or depends on such a function)")
